@@ -321,6 +321,18 @@ def write_replay(S, prop, r, replayers):
     else:
         doc['replay'] = {'confirmed': False,
                          'note': 'no replay builder for this obligation'}
+    if not confirmed:
+        # second chance: the bounded oracle of the leaf function concerned
+        try:
+            from contracts import leafcheck
+            lr = leafcheck.leaf_replay(S, r.name)
+            if lr is not None:
+                doc['replay_leaf_oracle'] = lr
+                confirmed = bool(lr.get('confirmed'))
+        except Exception:
+            import traceback
+            doc['replay_leaf_oracle'] = {'confirmed': False,
+                                         'error': traceback.format_exc()}
     with open(path, 'w') as f:
         json.dump(doc, f, indent=1, default=str)
     return path, confirmed
